@@ -34,6 +34,11 @@ Qed.
 Theorem impl_div_k_empty {X} (dv : V -> V -> X) (s : shape) (K : ktensor V) :
   impl_div_k v0 v1 vadd vmul dv (mkSp s [] []) K = mkSp s [] [].
 Proof. reflexivity. Qed.
+
+Theorem kruskal_empty_operand {X} (dv : V -> V -> X) (s : shape) (K : ktensor V) :
+  impl_mul_k_filtered v0 vadd vmul isz (mkSp s [] []) K = mkSp s [] [] /\
+  impl_div_k v0 v1 vadd vmul dv (mkSp s [] []) K = mkSp s [] [].
+Proof. split; [apply impl_mul_k_filtered_empty|apply impl_div_k_empty]. Qed.
 End W5.
 
 Local Open Scope Z_scope.
